@@ -184,6 +184,76 @@ func coveringHasLevel0(f b6.Feature) bool {
 	return false
 }
 
+func featureCovering(f b6.Feature) s2.CellUnion {
+	g, ok := f.(b6.Geometry)
+	if !ok {
+		return nil
+	}
+	cov := s2.RegionCoverer{MaxLevel: 16, MaxCells: 5}
+	var u s2.CellUnion
+	switch g.GeometryType() {
+	case b6.GeometryTypePoint:
+		u = cov.Covering(g.Point())
+	case b6.GeometryTypePath:
+		u = cov.Covering(g.Polyline())
+	case b6.GeometryTypeArea:
+		a := f.(b6.AreaFeature)
+		for i := 0; i < a.Len(); i++ {
+			u = s2.CellUnionFromUnion(u, cov.Covering(a.Polygon(i)))
+		}
+	}
+	return u
+}
+
+// missClass names the class of a missed match (classifier of the concrete
+// counterexample; not part of the oracle).
+func missClass(q b6.Query, family string, f b6.Feature, w b6.World, s *scene, kind string) string {
+	if fq, ok := q.(b6.IntersectsFeature); ok && kind == "overlay" {
+		inBase := func(id b6.FeatureID) bool {
+			for i := range s.feats {
+				if s.feats[i].id == id {
+					return s.feats[i].kind == fPoint || s.feats[i].global
+				}
+			}
+			return false
+		}
+		if !inBase(fq.ID) && inBase(f.FeatureID()) && w.FindFeatureByID(fq.ID) != nil {
+			return "overlay-world:intersects-feature-with-target-added-in-overlay-misses-base-features"
+		}
+	}
+	if coveringHasLevel0(f) {
+		return "missed:feature-covering-has-level-0-cell"
+	}
+	ft := f.FeatureID().Type.String()
+	var qcov s2.CellUnion
+	cov := s2.RegionCoverer{MaxLevel: 16, MaxCells: 5}
+	switch q := q.(type) {
+	case b6.IntersectsPoint:
+		qcov = cov.Covering(q.Point)
+	case b6.IntersectsPolyline:
+		qcov = cov.Covering(q.Polyline)
+	case b6.IntersectsFeature:
+		t := w.FindFeatureByID(q.ID)
+		if t == nil {
+			return "missed:feature:absent-target"
+		}
+		if g, ok := t.(b6.Geometry); !ok || (g.GeometryType() != b6.GeometryTypePoint && g.GeometryType() != b6.GeometryTypePath && g.GeometryType() != b6.GeometryTypeArea) {
+			if q.ID == f.FeatureID() {
+				return "intersects-feature:target-without-geometry-matches-itself-but-is-not-returned"
+			}
+			return "missed:feature:target-without-geometry"
+		}
+		qcov = featureCovering(t)
+	}
+	if qcov != nil {
+		fcov := featureCovering(f)
+		if !qcov.Intersects(fcov) {
+			return "missed:match-within-1mm-tolerance-but-coverings-disjoint"
+		}
+	}
+	return "missed:" + family + ":" + ft
+}
+
 type caseRef struct {
 	scene int
 	kind  string
@@ -220,7 +290,7 @@ func main() {
 					}
 				}
 			}
-			bound := fmt.Sprintf("%d anchor cells (level 16) x %d world kinds %v x ~%d queries per scene; ~%d features per scene; cap radii %v m; cell levels 0,1,5,16,30 (+2,10,15,17,24 thorough)",
+			bound := fmt.Sprintf("%d anchor cells (level 16; thorough also levels 8, 12, 20, 24) x %d world kinds %v x ~%d queries per scene; ~%d features per scene; cap radii %v m; cell levels 0,1,5,16,30 (+2,10,15,17,24 thorough)",
 				len(as), len(kinds), kinds, len(qs[0]), nf/len(as), capRadiiM)
 			return kit.FuncSpace{N: int64(len(cases)), F: func(i int64) kit.Result {
 				c := cases[i]
@@ -306,10 +376,7 @@ func runCase(s *scene, kind string, q *qspec, idx int64) kit.Result {
 		ft := id.Type.String()
 		switch {
 		case expected[id] && c == 0:
-			cl := "missed:" + q.family + ":" + ft
-			if coveringHasLevel0(all[id]) {
-				cl = "missed:feature-covering-has-level-0-cell"
-			}
+			cl := missClass(query, q.family, all[id], b.w, s, kind)
 			viol[cl] = append(viol[cl], "missing "+name(id))
 		case c > 1:
 			cl := "duplicate:" + q.family + ":" + ft
